@@ -4,7 +4,7 @@
 (*                                                                         *)
 (* IOEnv.TRACE_FILE is a JSON array of traces recorded from REAL cobra     *)
 (* models by harness/flux_engine.py:                                       *)
-(*   trace = [tid, M0 : instance, events : Seq(event)]                     *)
+(*   trace = [tid, prop, M0 : instance, events : Seq(event)]               *)
 (*   event = [step  : the step emitted by FluxLattice.tla,                 *)
 (*            obs   : what the call returned / raised (shape per op),      *)
 (*            model : [lb, ub, c, dir] read back through the public API    *)
@@ -34,6 +34,7 @@ IsNum(x) == x.k = "num"
 AllNum(s) == \A k \in 1..Len(s) : IsNum(s[k])
 Vals(s) == [k \in 1..Len(s) |-> s[k].i]
 NoDigest == [status |-> "none", obj |-> [k |-> "none", i |-> 0], fluxes |-> <<>>, rc |-> <<>>, sp |-> <<>>]
+NoInfo == [dec |-> FALSE, cls |-> "unknown", opt |-> 0]
 OptErrors == {"OptimizationError", "Infeasible", "Unbounded", "FeasibleButNotOptimal", "UndefinedSolution"}
 
 ApplyEdit(m, s) ==
@@ -47,10 +48,18 @@ LoggedModel(m, lg) == [m EXCEPT !.lb = lg.lb, !.ub = lg.ub, !.c = lg.c, !.dir = 
 If(b, x) == IF b THEN {x} ELSE {}
 
 \* ---------------------------------------------------------------- C04
+\* what the lattice says about one solve of instance Me (evaluated once per event, kept in `last`)
+SolveInfo(Me) ==
+  IF ~IsUnitNetwork(Me) THEN [dec |-> FALSE, cls |-> "unknown", opt |-> 0]
+  ELSE LET F == Feasible(Me)
+           inf == ~BoundsOrdered(Me) \/ F = {}
+           unb == ~inf /\ \E z \in Rays(Me) : Improves(Me.c, Me.dir, z) IN
+       [dec |-> TRUE, cls |-> IF inf THEN "infeasible" ELSE IF unb THEN "unbounded" ELSE "optimal",
+        opt |-> IF inf \/ unb THEN 0 ELSE OptIn(F, Me.c, Me.dir)]
 EffDir(m, s) == IF s.sense = "maximize" THEN "max" ELSE IF s.sense = "minimize" THEN "min" ELSE m.dir
 \* a digest claims to be an optimal solution of Me: the clauses of C04 that need no expected value
 \* beyond the instance, plus the comparison with the lattice optimum where it is decidable
-SolutionClauses(Me, d, pre) ==
+SolutionClauses(Me, d, pre, A) ==
   IF ~(AllNum(d.fluxes) /\ AllNum(d.rc) /\ AllNum(d.sp) /\ IsNum(d.obj)
        /\ Len(d.fluxes) = NR(Me) /\ Len(d.rc) = NR(Me) /\ Len(d.sp) = NM(Me))
   THEN {pre \o "shape"}
@@ -58,7 +67,7 @@ SolutionClauses(Me, d, pre) ==
        If(~FxInBounds(Me, v), pre \o "in_bounds")
        \cup If(~FxBalanced(Me, v), pre \o "steady_state")
        \cup If(~Near(d.obj.i, FxObjOf(Me, v), FxObjTol(Me)), pre \o "objective_is_c_dot_v")
-       \cup If(Decidable(Me, [kind |-> "opt"]) /\ HasOpt(Me) /\ ~Near(d.obj.i, Opt(Me) * Scale, Tol), pre \o "true_optimum")
+       \cup If(A.dec /\ A.cls = "optimal" /\ ~Near(d.obj.i, A.opt * Scale, Tol), pre \o "true_optimum")
        \cup If(~FxDualFeasible(Me, y, v), pre \o "dual_certificate")
        \cup If(\E r \in RIdx(Me) : ~Near(rc[r], FxRedCost(Me, y, r), FxDualTol(Me, r)), pre \o "reduced_cost_identity")
 \* diagnosis of a failing reduced-cost identity: every reported entry is exactly k times c - S^T y
@@ -66,25 +75,25 @@ RcFactor(Me, d, k) ==
   AllNum(d.rc) /\ AllNum(d.sp) /\ Len(d.rc) = NR(Me) /\ Len(d.sp) = NM(Me)
   /\ \A r \in RIdx(Me) : Near(d.rc[r].i, k * FxRedCost(Me, Vals(d.sp), r), k * FxDualTol(Me, r))
 
-OptimizeClauses(ev) ==
+OptimizeClauses(ev, A) ==
   LET s == ev.step o == ev.obs
       Me == [cur EXCEPT !.dir = EffDir(cur, s)]
-      dec == Decidable(Me, [kind |-> "opt"])
-      cls == StatusClass(Me) IN
+      dec == A.dec
+      cls == A.cls IN
   If(o.raises \notin ({"none"} \cup OptErrors), "exception_class")
   \cup If(dec /\ o.raises # "none" /\ cls = "optimal", "raises_on_optimal")
   \cup If(dec /\ o.raises = "none" /\ (o.sol.status = "optimal") # (cls = "optimal"), "status_class")
   \cup If(dec /\ o.raises = "none" /\ s.re /\ cls # "optimal", "raise_error_ignored")
-  \cup (IF o.raises = "none" /\ o.sol.status = "optimal" THEN SolutionClauses(Me, o.sol, "") ELSE {})
+  \cup (IF o.raises = "none" /\ o.sol.status = "optimal" THEN SolutionClauses(Me, o.sol, "", A) ELSE {})
   \cup If(ev.model.dir # cur.dir, "direction_restored")
 
-SlimClauses(ev) ==
+SlimClauses(ev, A) ==
   LET s == ev.step o == ev.obs
-      dec == Decidable(cur, [kind |-> "opt"])
-      cls == StatusClass(cur) IN
+      dec == A.dec
+      cls == A.cls IN
   IF ~dec THEN If(o.raises \notin ({"none"} \cup OptErrors), "exception_class")
   ELSE IF cls = "optimal"
-  THEN If(o.raises # "none" \/ ~IsNum(o.ret) \/ (IsNum(o.ret) /\ ~Near(o.ret.i, Opt(cur) * Scale, Tol)), "slim_return")
+  THEN If(o.raises # "none" \/ ~IsNum(o.ret) \/ (IsNum(o.ret) /\ ~Near(o.ret.i, A.opt * Scale, Tol)), "slim_return")
   ELSE CASE s.ev = "default" -> If(o.raises # "none" \/ o.ret.k # "nan", "slim_error_value")
          [] s.ev = "num" -> If(o.raises # "none" \/ o.ret # [k |-> "num", i |-> -7 * Scale], "slim_error_value")
          [] s.ev = "zero" -> If(o.raises # "none" \/ o.ret # [k |-> "num", i |-> 0], "slim_error_value")
@@ -93,8 +102,8 @@ SlimClauses(ev) ==
 \* accessors read the solver state left by the last solve
 AccessClauses(ev) ==
   LET o == ev.obs Me == last.Me
-      dec == Decidable(Me, [kind |-> "opt"])
-      cls == StatusClass(Me)
+      dec == last.info.dec
+      cls == last.info.cls
       outs == o.flux \o o.rc \o o.sp
       ok(s) == \A k \in 1..Len(s) : s[k].raises = "none"
       dig == [status |-> "optimal", obj |-> [k |-> "num", i |-> IF ok(o.flux) /\ AllNum([k \in 1..Len(o.flux) |-> o.flux[k].val])
@@ -105,7 +114,7 @@ AccessClauses(ev) ==
   ELSE If(\E k \in 1..Len(outs) : outs[k].raises \notin ({"none"} \cup OptErrors), "accessor_exception_class")
        \cup (IF dec /\ cls = "optimal"
              THEN If(~ok(outs), "accessor_raises_on_optimal")
-                  \cup (IF ok(outs) THEN SolutionClauses(Me, dig, "accessor_") ELSE {})
+                  \cup (IF ok(outs) THEN SolutionClauses(Me, dig, "accessor_", last.info) ELSE {})
                   \cup If(ok(outs) /\ last.hassol /\ last.sol.status = "optimal"
                           /\ ~(/\ \A k \in 1..Len(dig.fluxes) : IsNum(dig.fluxes[k]) /\ Near(dig.fluxes[k].i, last.sol.fluxes[k].i, Tol)
                                /\ \A k \in 1..Len(dig.rc) : IsNum(dig.rc[k]) /\ Near(dig.rc[k].i, last.sol.rc[k].i, Tol)
@@ -121,13 +130,22 @@ KeepRays(m) == {z \in Rays(m) : IF m.dir = "max" THEN Dot(m.c, z) >= 0 ELSE Dot(
 ObjInCycle(m) == \E z \in Cycles(m) : \E r \in ObjSupport(m) : z[r] # 0
 SumFinMag(m) == SumSeq([r \in RIdx(m) |-> FinMag(m, r)])
 
-\* what the event is: "skip" (not judged), or the record of expected ranges
-\*   mode "exact": reported = lo/hi;  mode "bracket": inner within reported within outer
-FvaExpect(m, s) ==
-  LET F == Feasible(m) opt == OptIn(F, m.c, m.dir)
-      rl == ReqList(m, s)
+\* One analysis record per FVA event (evaluated once per TLC state):
+\*   scope = "in", or the reason the call is not judged numerically
+\*   e     = the expected ranges: mode "exact": reported = r;  mode "bracket": inner within reported
+\*           within outer;  mode "skip"
+FracIsBoundF(m, num, den, opt, F) ==
+  \/ num = den
+  \/ /\ Cardinality(ObjSupport(m)) = 1
+     /\ LET r == CHOOSE k \in ObjSupport(m) : TRUE IN (num * opt) % (den * Abs(m.c[r])) = 0
+     /\ AllFinite(m)
+  \/ /\ AllFinite(m)
+     /\ LET worst == OptIn(F, m.c, IF m.dir = "max" THEN "min" ELSE "max") IN
+        IF m.dir = "max" THEN den * worst >= num * opt ELSE den * worst <= num * opt
+FvaExpectF(m, s, F, opt) ==
+  LET rl == ReqList(m, s)
       FR == {v \in F : ObjAtLeast(m, s.num, s.den, opt, v)}
-      exact == FracIsBound(m, s.num, s.den, opt)
+      exact == FracIsBoundF(m, s.num, s.den, opt, F)
       plain == [k \in 1..Len(rl) |-> RangeIn(F, rl[k])]
       lat == [k \in 1..Len(rl) |-> RangeIn(FR, rl[k])] IN
   IF s.loopless /\ s.pf # 0 THEN [mode |-> "skip", why |-> "loopless_with_pfba"]
@@ -137,7 +155,7 @@ FvaExpect(m, s) ==
        ELSE IF ~(exact /\ AllFinite(m)) THEN [mode |-> "bracket", inner |-> [k \in 1..Len(rl) |-> RangeIn(L, rl[k])], outer |-> plain, why |-> "loopless_undecidable"]
        ELSE [mode |-> "exact", r |-> [k \in 1..Len(rl) |-> RangeIn(L, rl[k])], why |-> "loopless"]
   ELSE IF s.pf # 0 THEN
-       IF ~(exact /\ SignOK(m, opt) /\ AllFinite(m)) THEN [mode |-> "bracket", inner |-> [k \in 1..Len(rl) |-> <<0, 0>>], outer |-> plain, why |-> "pfba_undecidable", noinner |-> TRUE]
+       IF ~(exact /\ AllFinite(m)) THEN [mode |-> "bracket", inner |-> [k \in 1..Len(rl) |-> <<0, 0>>], outer |-> plain, why |-> "pfba_undecidable"]
        ELSE LET mn == MinL1In(FR) capped == {v \in FR : 10 * L1(v) <= s.pf * mn} IN
             IF s.pf * mn >= 10 * SumFinMag(m) THEN [mode |-> "exact", r |-> lat, why |-> "pfba_cap_vacuous"]
             ELSE IF s.pf = 10 THEN [mode |-> "exact", r |-> [k \in 1..Len(rl) |-> RangeIn(capped, rl[k])], why |-> "pfba_argmin_face"]
@@ -145,23 +163,30 @@ FvaExpect(m, s) ==
   ELSE IF exact THEN [mode |-> "exact", r |-> lat, why |-> "plain"]
   ELSE [mode |-> "bracket", inner |-> lat, outer |-> plain, why |-> "fraction_not_bound_type"]
 
-FvaScope(m, s) ==     \* "in", or the reason the call is not judged numerically
-  IF ~IsUnitNetwork(m) THEN "not_unit_network"
-  ELSE IF ~HasOpt(m) THEN "no_optimum"
-  ELSE IF ~InScope_C05(m, s.num, s.den) THEN "optimum_has_wrong_sign_for_fraction"
-  ELSE IF \E k \in 1..Len(ReqList(m, s)) : \E z \in KeepRays(m) : z[ReqList(m, s)[k]] # 0 THEN "unbounded_range"
-  ELSE "in"
+NoExpect == [mode |-> "skip", why |-> "out_of_scope"]
+FvaAnalysis(m, s) ==
+  IF ~IsUnitNetwork(m) THEN [scope |-> "not_unit_network", infeasible |-> FALSE, signok |-> TRUE, e |-> NoExpect]
+  ELSE LET F == Feasible(m)
+           inf == ~BoundsOrdered(m) \/ F = {}
+           unb == ~inf /\ \E z \in Rays(m) : Improves(m.c, m.dir, z) IN
+       IF inf \/ unb THEN [scope |-> "no_optimum", infeasible |-> inf, signok |-> TRUE, e |-> NoExpect]
+       ELSE LET opt == OptIn(F, m.c, m.dir) sok == SignOK(m, opt) rl == ReqList(m, s) IN
+            IF ~(s.num >= 0 /\ s.num <= s.den /\ s.den > 0 /\ (s.num = s.den \/ sok))
+            THEN [scope |-> "optimum_has_wrong_sign_for_fraction", infeasible |-> FALSE, signok |-> sok, e |-> NoExpect]
+            ELSE IF ~AllFinite(m) /\ \E k \in 1..Len(rl) : \E z \in KeepRays(m) : z[rl[k]] # 0
+            THEN [scope |-> "unbounded_range", infeasible |-> FALSE, signok |-> sok, e |-> NoExpect]
+            ELSE [scope |-> "in", infeasible |-> FALSE, signok |-> sok, e |-> FvaExpectF(m, s, F, opt)]
 
-FvaClauses(ev) ==
-  LET s == ev.step o == ev.obs m == cur sc == FvaScope(m, s) rl == ReqList(m, s) IN
+FvaClauses(ev, A) ==
+  LET s == ev.step o == ev.obs m == cur sc == A.scope rl == ReqList(m, s) IN
   IF sc = "not_unit_network" THEN {}
   ELSE IF sc = "no_optimum"
-  THEN If(o.raises # (IF Infeasible(m) THEN "Infeasible" ELSE "Unbounded"), "fva_exception_without_optimum")
+  THEN If(o.raises # (IF A.infeasible THEN "Infeasible" ELSE "Unbounded"), "fva_exception_without_optimum")
   ELSE IF sc # "in" THEN {}
   ELSE IF o.raises # "none" THEN {"fva_raises_in_scope"}
   ELSE IF ~(o.index = rl /\ Len(o.min) = Len(rl) /\ Len(o.max) = Len(rl)) THEN {"fva_index"}
   ELSE IF ~(AllNum(o.min) /\ AllNum(o.max)) THEN {"fva_not_a_number"}
-  ELSE LET e == FvaExpect(m, s) mn == Vals(o.min) mx == Vals(o.max) K == 1..Len(rl) IN
+  ELSE LET e == A.e mn == Vals(o.min) mx == Vals(o.max) K == 1..Len(rl) IN
        If(\E k \in K : mn[k] > mx[k] + Tol, "min_le_max")
        \cup (CASE e.mode = "exact" ->
                     If(\E k \in K : ~Near(mn[k], e.r[k][1] * Scale, Tol) \/ ~Near(mx[k], e.r[k][2] * Scale, Tol),
@@ -175,25 +200,46 @@ FvaClauses(ev) ==
        \cup If(s.loopless /\ fvas.valid /\ fvas.rl = rl /\ fvas.num = s.num /\ fvas.den = s.den
                /\ \E k \in K : mn[k] < fvas.min[k] - Tol \/ mx[k] > fvas.max[k] + Tol, "loopless_inside_plain")
 
-FvaTags(ev) ==
-  LET s == ev.step m == cur IN
-  IF FvaScope(m, s) # "in" THEN {FvaScope(m, s)}
-  ELSE LET e == FvaExpect(m, s) IN
-       {e.why} \cup If(s.loopless /\ ObjInCycle(m), "objective_in_internal_cycle")
-       \cup If(s.loopless, "loopless") \cup If(s.pf # 0, "pfba_factor")
+\* Root-cause classes of a loopless-range mismatch, decided per mismatching entry (request k, side):
+\*   value OUTSIDE the true loop-free range (a loop survived):
+\*     "loop_kept_objective_on_cycle"   the objective reaction lies on an internal cycle
+\*     "loop_kept_forced_flux_on_cycle" a reaction with bounds excluding 0 lies on an internal cycle
+\*     "loop_kept_several_cycles"       the requested reaction lies on more than one internal cycle
+\*                                      (loops are closed in a single pass)
+\*   value strictly INSIDE (a loop-free extreme was missed):
+\*     "extreme_missed_reaction_on_cycle"  the requested reaction lies on an internal cycle (every
+\*                                      reaction of the loops through it is closed, itself included)
+\*   anything else: "unexplained"
+ForcedOnCycle(m) == \E z \in Cycles(m) : \E r \in RIdx(m) : z[r] # 0 /\ (m.lb[r] > 0 \/ m.ub[r] < 0)
+CyclesThrough(m, r) == {z \in Cycles(m) : z[r] # 0}
+LoopEntryClass(m, r, x, lo, hi) ==
+  IF x < lo * Scale - Tol \/ x > hi * Scale + Tol
+  THEN (IF ObjInCycle(m) THEN "loop_kept_objective_on_cycle"
+        ELSE IF ForcedOnCycle(m) THEN "loop_kept_forced_flux_on_cycle"
+        ELSE IF Cardinality(CyclesThrough(m, r)) > 2 THEN "loop_kept_several_cycles"
+        ELSE "unexplained")
+  ELSE IF CyclesThrough(m, r) # {} THEN "extreme_missed_reaction_on_cycle" ELSE "unexplained"
+LoopClasses(m, s, o, e) ==
+  LET rl == ReqList(m, s) IN
+  {LoopEntryClass(m, rl[k], o.min[k].i, e.r[k][1], e.r[k][2]) : k \in {j \in 1..Len(rl) : ~Near(o.min[j].i, e.r[j][1] * Scale, Tol)}}
+  \cup {LoopEntryClass(m, rl[k], o.max[k].i, e.r[k][1], e.r[k][2]) : k \in {j \in 1..Len(rl) : ~Near(o.max[j].i, e.r[j][2] * Scale, Tol)}}
+
+FvaTags(ev, A) ==
+  LET s == ev.step m == cur o == ev.obs IN
+  IF A.scope # "in" THEN {A.scope}
+  ELSE LET e == A.e IN
+       {e.why} \cup If(s.loopless, "loopless") \cup If(s.pf # 0, "pfba_factor")
        \cup If(s.num # s.den, "fraction_below_one")
-       \* form of a loopless mismatch: reported range is WIDER than the loop-free one (a loop survived)
-       \cup If(ev.obs.raises = "none" /\ e.mode = "exact" /\ AllNum(ev.obs.min) /\ AllNum(ev.obs.max) /\ Len(ev.obs.min) = Len(e.r)
-               /\ \A k \in 1..Len(e.r) : ev.obs.min[k].i <= e.r[k][1] * Scale + Tol /\ ev.obs.max[k].i >= e.r[k][2] * Scale - Tol,
-               "reported_range_contains_true_range")
-       \cup If(ev.obs.raises = "none" /\ e.mode = "exact" /\ AllNum(ev.obs.min) /\ AllNum(ev.obs.max) /\ Len(ev.obs.min) = Len(e.r)
-               /\ \A k \in 1..Len(e.r) : ev.obs.min[k].i >= e.r[k][1] * Scale - Tol /\ ev.obs.max[k].i <= e.r[k][2] * Scale + Tol,
-               "reported_range_inside_true_range")
+       \cup If(~A.signok, "optimum_sign_opposes_direction")
+       \cup (IF s.loopless /\ o.raises = "none" /\ e.mode = "exact" /\ AllNum(o.min) /\ AllNum(o.max)
+                /\ Len(o.min) = Len(e.r) /\ Len(o.max) = Len(e.r)
+             THEN LoopClasses(m, s, o, e) ELSE {})
 
 \* an optimal FBA solution lies inside the plain ranges reported just before
 FbaInsideFva(ev) ==
   LET o == ev.obs IN
   If(fvas.valid /\ o.raises = "none" /\ o.sol.status = "optimal" /\ ev.step.sense = "none" /\ AllNum(o.sol.fluxes)
+     /\ IsUnitNetwork(cur) /\ InScope_C05(cur, fvas.num, fvas.den)
      /\ Len(o.sol.fluxes) = NR(cur)
      /\ \E k \in 1..Len(fvas.rl) : LET x == o.sol.fluxes[fvas.rl[k]].i IN x < fvas.min[k] - Tol \/ x > fvas.max[k] + Tol,
      "optimal_solution_inside_ranges")
@@ -222,6 +268,7 @@ BlockedTags(ev) ==
        If(F # FR, "objective_restricts_flux_space_at_fraction_0")
        \cup If(o.raises = "none" /\ SeqSet(o.ids) = {r \in req : \A v \in FR : v[r] = 0}, "equals_blocked_set_under_objective_restriction")
        \cup If(s.open, "open_exchanges")
+       \cup If(s.by \in {"id", "mixed"}, "reaction_list_contains_ids")
 
 FastccClauses(ev) ==
   LET o == ev.obs m == cur IN
@@ -250,6 +297,7 @@ FastccTags(ev) ==
 C17Scope(m) == IF ~IsUnitNetwork(m) THEN "not_unit_network"
                ELSE IF ~AllFinite(m) THEN "infinite_bound"
                ELSE IF ~HasOpt(m) THEN "no_optimum"
+               ELSE IF Cycles(m) = {} THEN "no_internal_cycle"
                ELSE "in"
 IsIntegral(vx) == \A r \in 1..Len(vx) : LET q == ((vx[r] % Scale) + Scale) % Scale IN q <= Tol \/ q >= Scale - Tol
 RoundInt(vx) == [r \in 1..Len(vx) |-> IF vx[r] >= 0 THEN (vx[r] + Scale \div 2) \div Scale ELSE -((-vx[r] + Scale \div 2) \div Scale)]
@@ -312,12 +360,16 @@ GenericClauses(ev) ==
        \/ (ev.model.dir # exp.dir /\ ev.step.op # "optimize"), "model_as_expected")
   \cup If(Len(ev.snaps) # Len(sols) \/ \E k \in 1..MinOf(Len(sols), Len(ev.snaps)) : ev.snaps[k] # sols[k], "solution_is_snapshot")
 
-Clauses(ev) ==
+Ctx(ev) == CASE ev.step.op = "fva" -> FvaAnalysis(cur, ev.step)
+             [] ev.step.op = "optimize" -> IF Traces[tid].prop = "C04" THEN SolveInfo([cur EXCEPT !.dir = EffDir(cur, ev.step)]) ELSE NoInfo
+             [] ev.step.op = "slim" -> SolveInfo(cur)
+             [] OTHER -> [scope |-> "n/a"]
+Clauses(ev, A) ==
   GenericClauses(ev) \cup
-  CASE ev.step.op = "optimize" -> OptimizeClauses(ev) \cup FbaInsideFva(ev)
-    [] ev.step.op = "slim" -> SlimClauses(ev)
+  CASE ev.step.op = "optimize" -> IF Traces[tid].prop = "C04" THEN OptimizeClauses(ev, A) ELSE FbaInsideFva(ev)
+    [] ev.step.op = "slim" -> SlimClauses(ev, A)
     [] ev.step.op = "access" -> AccessClauses(ev)
-    [] ev.step.op = "fva" -> FvaClauses(ev)
+    [] ev.step.op = "fva" -> FvaClauses(ev, A)
     [] ev.step.op = "blocked" -> BlockedClauses(ev)
     [] ev.step.op = "fastcc" -> FastccClauses(ev)
     [] ev.step.op = "loopless_solution" -> LooplessSolClauses(ev)
@@ -325,16 +377,16 @@ Clauses(ev) ==
     [] OTHER -> {}
 
 \* root-cause tags: spec state and arguments, and the arithmetic FORM of a failing identity
-Tags(ev) ==
+Tags(ev, A) ==
   LET s == ev.step IN
   CASE s.op = "optimize" ->
-         LET Me == [cur EXCEPT !.dir = EffDir(cur, s)] cls == StatusClass(Me) IN
+         LET Me == [cur EXCEPT !.dir = EffDir(cur, s)] cls == A.cls IN
          If(EffDir(cur, s) # cur.dir, "sense_override_changes_direction")
-         \cup If(cls = "unbounded" \/ (s.re /\ cls # "optimal"), "call_raises_by_contract")
-         \cup If(cls = "optimal" /\ ev.obs.raises = "none" /\ RcFactor(Me, ev.obs.sol, 2), "reduced_costs_exactly_twice_c_minus_STy")
+         \cup If((A.dec /\ (cls = "unbounded" \/ (s.re /\ cls # "optimal"))) \/ (~A.dec /\ ev.obs.raises \in OptErrors), "call_raises_by_contract")
+         \cup If(ev.obs.raises = "none" /\ ev.obs.sol.status = "optimal" /\ RcFactor(Me, ev.obs.sol, 2), "reduced_costs_exactly_twice_c_minus_STy")
     [] s.op = "access" ->
          IF ~last.valid THEN {}
-         ELSE LET cls == StatusClass(last.Me) IN
+         ELSE LET cls == IF last.info.dec THEN last.info.cls ELSE ev.obs.status IN    \* undecidable instance: the solver's word
               If(cls = "unbounded", "last_solve_unbounded")
               \cup If(cls = "infeasible", "last_solve_infeasible")
               \cup If(cls = "optimal" /\ (\A k \in 1..Len(ev.obs.rc) : ev.obs.rc[k].raises = "none") /\ (\A j \in 1..Len(ev.obs.sp) : ev.obs.sp[j].raises = "none"),
@@ -344,19 +396,18 @@ Tags(ev) ==
               \cup If(\A k \in 1..Len(ev.obs.flux) : ev.obs.flux[k].raises \in ({"none"} \cup OptErrors), "flux_accessor_ok")
               \cup If(\A k \in 1..Len(ev.obs.rc) : ev.obs.rc[k].raises \in ({"none"} \cup OptErrors), "rc_accessor_ok")
               \cup If(\E k \in 1..Len(ev.obs.sp) : ev.obs.sp[k].raises = "TypeError", "shadow_price_raises_TypeError")
-    [] s.op = "fva" -> FvaTags(ev)
+    [] s.op = "fva" -> FvaTags(ev, A)
     [] s.op = "blocked" -> BlockedTags(ev)
     [] s.op = "fastcc" -> FastccTags(ev)
     [] s.op = "loopless_solution" -> LooplessSolTags(ev)
     [] s.op = "add_loopless" -> AddLooplessTags(ev)
     [] OTHER -> {}
 
-Undecided(ev) ==
-  CASE ev.step.op = "optimize" -> ~Decidable([cur EXCEPT !.dir = EffDir(cur, ev.step)], [kind |-> "opt"])
-    [] ev.step.op = "slim" -> ~Decidable(cur, [kind |-> "opt"])
-    [] ev.step.op = "access" -> last.valid /\ ~Decidable(last.Me, [kind |-> "opt"])
-    [] ev.step.op = "fva" -> FvaScope(cur, ev.step) \notin {"in", "no_optimum"}
-                             \/ (FvaScope(cur, ev.step) = "in" /\ FvaExpect(cur, ev.step).mode # "exact")
+Undecided(ev, A) ==
+  CASE ev.step.op = "optimize" -> ~A.dec
+    [] ev.step.op = "slim" -> ~A.dec
+    [] ev.step.op = "access" -> last.valid /\ ~last.info.dec
+    [] ev.step.op = "fva" -> A.scope \notin {"in", "no_optimum"} \/ (A.scope = "in" /\ A.e.mode # "exact")
     [] ev.step.op \in {"blocked", "fastcc"} -> C19Scope(cur) # "in"
     [] ev.step.op = "loopless_solution" -> C17Scope(cur) # "in" \/ (ev.step.start # "none" /\ ~StartOK(cur, ev.obs.start))
                                             \/ (ev.obs.raises = "none" /\ AllNum(ev.obs.sol.fluxes) /\ ~IsIntegral(Vals(ev.obs.sol.fluxes)))
@@ -369,24 +420,29 @@ Init ==
   /\ l = 0
   /\ cur = Traces[tid].M0
   /\ sols = <<>>
-  /\ last = [valid |-> FALSE, Me |-> Traces[tid].M0, hassol |-> FALSE, sol |-> NoDigest]
+  /\ last = [valid |-> FALSE, Me |-> Traces[tid].M0, hassol |-> FALSE, sol |-> NoDigest, info |-> NoInfo]
   /\ fvas = NoFvas
 
 Next ==
   /\ l < Len(Traces[tid].events)
   /\ LET ev == Traces[tid].events[l + 1]
-         cl == Clauses(ev) IN
+         A == Ctx(ev)
+         cl == Clauses(ev, A)
+         tg == IF cl = {} THEN {} ELSE Tags(ev, A) IN
      /\ (cl # {}) =>
            PrintT(ToJson([verdict |-> "MISMATCH", tid |-> Traces[tid].tid, l |-> l + 1, op |-> ev.step.op,
-                          clauses |-> cl, tags |-> Tags(ev), step |-> ev.step]))
-     /\ Undecided(ev) => PrintT(ToJson([verdict |-> "UNDECIDED", tid |-> Traces[tid].tid, l |-> l + 1, op |-> ev.step.op]))
+                          clauses |-> cl, tags |-> tg, step |-> ev.step,
+                          unexplained |-> IF "unexplained" \in tg THEN 1 ELSE 0,
+                          obsraises |-> IF "raises" \in DOMAIN ev.obs THEN ev.obs.raises ELSE "n/a"]))
+     /\ Undecided(ev, A) => PrintT(ToJson([verdict |-> "UNDECIDED", tid |-> Traces[tid].tid, l |-> l + 1, op |-> ev.step.op]))
      \* continue from the logged state
      /\ cur' = LoggedModel(cur, ev.model)
      /\ sols' = IF ev.step.op = "optimize" /\ ev.obs.raises = "none" THEN Append(ev.snaps, ev.obs.sol) ELSE ev.snaps
      /\ last' = CASE ev.step.op = "optimize" ->
                        [valid |-> TRUE, Me |-> [cur EXCEPT !.dir = EffDir(cur, ev.step)],
-                        hassol |-> ev.obs.raises = "none", sol |-> IF ev.obs.raises = "none" THEN ev.obs.sol ELSE NoDigest]
-                  [] ev.step.op = "slim" -> [valid |-> TRUE, Me |-> cur, hassol |-> FALSE, sol |-> NoDigest]
+                        hassol |-> ev.obs.raises = "none", sol |-> IF ev.obs.raises = "none" THEN ev.obs.sol ELSE NoDigest,
+                        info |-> IF Traces[tid].prop = "C04" THEN A ELSE NoInfo]
+                  [] ev.step.op = "slim" -> [valid |-> TRUE, Me |-> cur, hassol |-> FALSE, sol |-> NoDigest, info |-> A]
                   [] IsEdit(ev.step) -> [last EXCEPT !.valid = FALSE]
                   [] OTHER -> [last EXCEPT !.valid = FALSE]
      /\ fvas' = IF IsEdit(ev.step) THEN NoFvas
